@@ -503,7 +503,7 @@ func c05GenForms(rng *rand.Rand, idx int, backend string) c05FormsOp {
 			f.Dpop = c05Pick(rng, "", "", "", "bad", "good")
 		default: // other grant types; parameters of the other grants are present
 			f.T = "token"
-			f.Grant = c05Pick(rng, "urn:ietf:params:oauth:grant-type:pre-authorized_code", "refresh_token", "", "*", "vp_token", "client_credentials")
+			f.Grant = c05Pick(rng, "urn:ietf:params:oauth:grant-type:pre-authorized_code", "urn:ietf:params:oauth:grant-type:pre-authorized_code", "URN:ietf:params:oauth:grant-type:pre-authorized_code", "refresh_token", "", "*", "vp_token", "client_credentials")
 			f.Code = c05OptStr(rng, 30, "c1", "c2")
 			f.Verifier = c05OptStr(rng, 30, c05FormsPKCE.Verifier)
 			f.Client = c05OptStr(rng, 30, "clientA")
